@@ -185,6 +185,8 @@ where
             let mut p = pk.encrypt_key_el_gamal_with_proof(&plain(geti(v, "m"))).expect("proof");
             let oth = pk.encrypt_key_el_gamal_with_proof(&plain(geti(v, "m2"))).expect("proof");
             let ops = geta(v, "ops");
+            // the genuine proof is verified first (same thread), then the perturbed one
+            let _ = (p.verify(pk).is_ok(), p.verify_and_decrypt(&lib.sk::<C>(k)).is_ok());
             apply_ops::<C>(&mut p, &oth, ops);
             let want = gets(&v["expect"], "res");
             let mut o = Outcome::pass(json!({}));
